@@ -24,7 +24,7 @@ def trait_src(d):
     lines.insert(0, "    #[cglue_trait]")
     lines.append("    pub trait T {")
     for m in d["ms"]:
-        args = "".join(", a%d: %s" % (i, ty(t)) for i, t in enumerate(m["args"]))
+        args = "".join(", %s%d: %s" % (m.get("argnames", "a"), i, ty(t)) for i, t in enumerate(m["args"]))
         body = ";"
         if m["dflt"] or m["skip"]:
             body = " { %s }" % DFLT[m["ret"]]
